@@ -16,13 +16,13 @@ ID = 'C06'
 LEVEL = 'exploration'
 RULE = ('Engine A: lattice of experiment frames (5 shapes x noise patterns x n_pre in {3,4,6,8,12} x n_test in {1,2,4} x '
         'cooldown in {0,2} x use_cooldown) x ALL layout variants (geos per group 1-3 with dyadic splits, extra unassigned '
-        'geo, unassigned-period dates, 3 row orders, custom column names / group labels, custom non-monotone period labels) x summary settings (level in '
+        'geo, unassigned-period dates, 3 row orders, custom column names / group labels, custom non-monotone period labels, and the analysis object in a NON-INITIAL state: already fitted to another experiment and asked for its reports) x summary settings (level in '
         '{0.2,0.5,0.8,0.9,0.95} x tails x threshold in {0,+-c} x rescale in {0.5,1,4} x report in {last,all}; quick uses '
         'a 32-setting sub-grid, thorough all 180). Oracle: degrees of freedom, location and scale on EVERY analysed '
         'day against the closed form (OLS + Kerman 2017 eq. 5); every layout variant gives the identical distribution; '
         'summary rows: lower = ppf(alpha), upper = ppf(1-alpha) or +inf, precision = estimate - lower, probability = '
         '1 - cdf(threshold), lower <= estimate <= upper (ordering only for levels > 0.5 when tails = 1, scope S1); '
-        'TBRMMDiagnostics.tbrfit on the same totals gives the same estimate and |t_sig| * scale half-width, on a fresh object and on an object that analysed other series (other control series; other treatment series of another length) before. '
+        'TBRMMDiagnostics.tbrfit on the same totals gives the same estimate and |t_sig| * scale half-width, on a fresh object and on an object that analysed other series (other control series; other treatment series of another length) before and whose caller refills his array after handing it in. '
         'Non-trivial = frame with >= 2 analysed days or a non-default layout; distinct = distinct case.')
 ASSUMPTIONS = ['value lattice: integer totals (multiples of 4) from 5 shapes + small noise patterns; comparisons at 1e-9 relative',
                'scipy.stats.t quantiles/CDF are trusted (common to implementation and oracle)',
@@ -31,7 +31,8 @@ ASSUMPTIONS = ['value lattice: integer totals (multiples of 4) from 5 shapes + s
 LAYOUTS = [dict(), dict(gc=2, gt=3), dict(gc=3, gt=2, order='reversed'), dict(extra_geo=True, order='mixed'),
            dict(extra_dates=[['lead', -1]]), dict(extra_dates=[['trail', -1]], gc=2), dict(extra_dates=[['lead', -1], ['trail', 3]], extra_geo=True, gt=2, order='reversed'),
            dict(names={'date': 'day', 'group': 'grp', 'period': 'per', 'response': 'sales', 'geo': 'Geo'}, labels={'control': 7, 'treatment': 5}),
-           dict(period_labels={0: 12, 1: 10, 2: 11, -1: 3}, extra_dates=[['lead', -1]], gc=2, order='mixed')]
+           dict(period_labels={0: 12, 1: 10, 2: 11, -1: 3}, extra_dates=[['lead', -1]], gc=2, order='mixed'),
+           dict(refit=True), dict(refit=True, extra_dates=[['lead', -1], ['trail', 3]], extra_geo=True, gt=2, order='reversed')]
 LEVELS = [0.2, 0.5, 0.8, 0.9, 0.95]
 SETTINGS_ALL = [dict(level=l, tails=t, threshold=th, rescale=r, report=rep) for l in LEVELS for t in (1, 2)
                 for th in (0.0, 25.0, -40.0) for r in (0.5, 1.0, 4.0) for rep in ('last', 'all')]
@@ -60,6 +61,13 @@ def fit(spec, use_cd, layout):
         kw['extra_dates'] = [tuple(e) for e in layout['extra_dates']]
     df = frames.build(x, y, periods, **kw)
     m = TBR(use_cooldown=use_cd)
+    if layout.get('refit'):
+        # NON-INITIAL state: the object has analysed ANOTHER experiment (other lengths, default column names) before
+        spec2 = dict(spec, npre=spec['npre'] + 3, ntest=spec['ntest'] + 2, ncool=1, shape='vee' if spec['shape'] != 'vee' else 'step', lift=-9)
+        x2, y2, p2 = frames.series(spec2)
+        m.fit(frames.build(2 * x2, 0.5 * y2, p2, gc=2), 'response')
+        m.summary(level=0.8, tails=2, report='all')
+        m.causal_cumulative_distribution()
     fkw = {}
     if layout.get('names'):
         nm = layout['names']
@@ -109,7 +117,7 @@ def run_case(case):
             if not (len(loc) == len(base[0]) and np.allclose(loc, base[0], rtol=1e-10, atol=1e-8) and np.allclose(scale, base[1], rtol=1e-10) and df_ == base[2]):
                 add('layout-dependence:layout%d' % li, 'layout %s changes the distribution: loc %s vs %s, scale %s vs %s' % (
                     layout, loc.tolist(), base[0].tolist(), scale.tolist(), base[1].tolist()))
-        if li in (0, 6):
+        if li in (0, 6, 10):
             for s in tier_settings:
                 try:
                     rep = m.summary(level=s['level'], threshold=s['threshold'], tails=s['tails'], report=s['report'], rescale=s['rescale'])
@@ -176,7 +184,9 @@ def run_case(case):
                 dg.y = y0[:npre]
             dg.x = xo
             dg.tbrfit(float(np.mean(xt)) + 4.0, float(np.mean(yt))), dg.required_impact, dg.corr
-            dg.x = x0[:npre]
+            bx = np.array(x0[:npre], float)         # the caller's work buffer: handed in, then refilled by the caller
+            dg.x = bx
+            bx[:] = bx[::-1] * 2.0 + 3.0
             f = dg.tbrfit(float(np.mean(xt)), float(np.mean(yt)))
         except Exception as e:
             add('design-side-reused-object-raises-' + type(e).__name__, 'round %d: %s' % (rnd, str(e)[:120]))
